@@ -103,4 +103,10 @@ def Ordered (d : Disk) : Prop :=
   (d.app → d.trie ∧ d.store) ∧                                   -- the marker never names a root that is not on disk
   (d.state → d.app ∧ d.interm)
 
+/-- `Ordered`, computed (Props/C06.lean: `orderedB_iff`) -/
+def orderedB (d : Disk) : Bool :=
+  (!d.store || (d.bmeta && d.parts && d.lastCommit && d.seenCommit)) &&
+  (!d.app || (d.trie && d.store)) &&
+  (!d.state || (d.app && d.interm))
+
 end AnnVerif.Crash
